@@ -40,6 +40,7 @@ func genC02(ctx *fw.Ctx) []fw.Case {
 		cases = append(cases, fw.Case{ID: s.ID, Run: func(r *fw.Rec) { c02Source(r, s) }})
 	}
 	cases = append(cases, fw.Case{ID: "llir-only", Run: c02LlirOnly})
+	cases = append(cases, fw.Case{ID: "handwritten", Run: c02Handwritten})
 	return cases
 }
 
@@ -66,6 +67,10 @@ func c02LlirOnly(r *fw.Rec) {
 		"external-definition-spelled": "@g = external global i32 0\n",
 		// duplicate attributes in one group
 		"attrgroup-duplicate-attribute": "define void @f() #0 {\n  ret void\n}\nattributes #0 = { nounwind nounwind }\n",
+		// attribute arguments beyond 32 bits
+		"allocsize-beyond-63-bits":    "define void @f() allocsize(18446744073709551611) {\n  ret void\n}\n",
+		"vscale-range-beyond-63-bits": "define void @f() vscale_range(18446744073709551611, 18446744073709551612) {\n  ret void\n}\n",
+		"allocsize-beyond-32-bits":    "declare void @f() allocsize(4294967296, 4294967297)\n",
 		// integer literal wider than its type
 		"int-literal-out-of-range":  "@g = global i8 300\n",
 		"bool-literal-out-of-range": "@g = global i1 2\n",
@@ -186,4 +191,24 @@ func splitLines(s string) []string {
 		out = append(out, s[start:])
 	}
 	return out
+}
+
+// c02Handwritten holds LLVM-valid inputs that are kept out of the atom
+// catalogue because every respelling of them would raise the same finding
+// under another key; they go through the comparison once, as written.
+func c02Handwritten(r *fw.Rec) {
+	inputs := map[string]string{
+		// a named non-struct type is an alias of its body: uses spelled with the name and with the body are mixed
+		"named-int-alias-mixed-spellings": "%a = type i32\n\ndefine %a @foo(%a %x) {\n  %y = add i32 %x, 1\n  %z = add %a %y, 2\n  ret i32 %z\n}\n",
+		// the same names, spelled consistently (a fixpoint)
+		"named-int-alias-consistent-spellings": "%a = type i32\n\ndefine %a @foo(%a %x) {\n  %y = add %a %x, 1\n  %z = add %a %y, 2\n  ret %a %z\n}\n",
+	}
+	for _, name := range fw.SortedKeys(inputs) {
+		x := inputs[name]
+		if ok, _, err := llvmref.Accepts(x); err != nil || !ok {
+			r.Inconclusive("handwritten input not valid for LLVM: " + name)
+			continue
+		}
+		c02One(r, "handwritten/"+name, "original", x)
+	}
 }
